@@ -24,9 +24,10 @@ lane() {
     [ -n "${OWN_ONLY:-}" ] && RUNIDS="${m%-*}"
     [ -n "${CHECK_IDS:-}" ] && RUNIDS="$CHECK_IDS"
     for id in $RUNIDS; do
-      o=$(cd $D/verif && REPO_DIR=$D/repo ./check.sh $id quick 2>&1); rc=$?
+      o=$(cd $D/verif && REPO_DIR=$D/repo ./check.sh $id ${MATRIX_TIER:-quick} 2>&1); rc=$?
       sigs=$(echo "$o" | grep -E "^  sig=" | sed 's/^  sig=//' | sort -u | head -4 | tr '\n' ';')
       echo "$id rc=$rc $sigs" >> $OUT/$m.txt.tmp
+      [ -n "${KEEP_LOG:-}" ] && echo "$o" > $OUT/$m.$id.log
     done
     mv $OUT/$m.txt.tmp $OUT/$m.txt
   done
